@@ -473,6 +473,35 @@ def trace_batch_sample(G, DI, U, out):
                 if not trlib.same_tensor(got, base[ac].a[0]):
                     raise TraceError(f"ImageBatch.sample: batch entry {k} is not sampled with its own source/target grid "
                                      f"(N={n_src}, {n_tgt} target grid(s))")
+    # ONE shared target that is the grid of image 0, images on DIFFERENT grids: the "already on the target grid" shortcut
+    # must not fire (it has to compare the target with EVERY image's grid); entry 0 is sampled at its own lattice, entry 1
+    # through the two-grid map of ITS grid
+    for ac in (True, False):
+        sizes = tsizes(ac, 2)
+        s0 = concrete_grid(Grid, 2, sizes, "t", ac)
+        s1 = mk_grid(Grid, 2, p="s", align=ac)
+        arr = np.empty((2, 1, 2, 2), dtype=object)
+        for j, idx in enumerate(np.ndindex(2, 1, 2, 2)):
+            arr[idx] = E.var(f"v{j}")
+        fb = FakeBatch(st.Tensor(arr, dtype=st.float32), [s0, s1])
+        rec = Recorder()
+        with patched(U, grid_sample=rec), patched(G, round_decimals=lambda t, decimals=0, out=None: t):
+            st.GENERIC_DISTINCT = True
+            try:
+                res = DI.ImageBatch.sample(fb, s0, mode="linear", padding="zeros")
+            finally:
+                st.GENERIC_DISTINCT = False
+        if not (isinstance(res, tuple) and res[0] == "instance") or len(rec.calls) != 1:
+            raise TraceError("ImageBatch.sample(target = grid of image 0) on images with different grids returns the batch unsampled")
+        if len(res[2]) != 2 or any(g_ is not s0 for g_ in res[2]):
+            raise TraceError("ImageBatch.sample(target = grid of image 0): result does not carry the target grid once per image")
+        gc = rec.calls[0]["grid"]
+        if tuple(gc.shape)[0] != 2:
+            raise TraceError(f"ImageBatch.sample(target = grid of image 0): coordinates built for {tuple(gc.shape)[0]} of 2 images")
+        if not all(e.is_const() for e in gc.a[0].reshape(-1)):
+            raise TraceError("ImageBatch.sample(target = grid of image 0): image 0 is not sampled at its own lattice")
+        if not trlib.same_tensor(gc.a[1], base[ac].a[0]):
+            raise TraceError("ImageBatch.sample(target = grid of image 0): image 1 is not sampled through the map into ITS grid")
     d = sorted(x for x in decs if x is not None)
     out.append(f"(* default rounding applied by grid_transform_points to the source-cube coordinates: decimals = {d} *)")
     out.append("Definition gen_bs_round_decimals : list Z := [" + "; ".join(f"({x})%Z" for x in d) + "].\n")
